@@ -282,6 +282,15 @@ class Interp:
         h = self.find_handler(f)
         if h is not None:
             return h(S, *args, **kwargs)
+        recv0 = getattr(f, "__self__", None)
+        if recv0 is not None and not inspect.ismodule(recv0):
+            # per-object handler for a method of a concrete object, e.g. (a_context_var, "get")
+            try:
+                hk = S.handlers.get((recv0, getattr(f, "__name__", "")))
+            except TypeError:
+                hk = None
+            if hk is not None:
+                return hk(S, *args, **kwargs)
         m = self.models.lookup_builtin(f)
         if m is not None:
             return m(self, *args, **kwargs)
@@ -1084,6 +1093,16 @@ class Interp:
             return None
         if isinstance(e.func, ast.Name) and e.func.id == "cast" and len(e.args) == 2:
             return self.eval(e.args[1], frame)
+        if (
+            isinstance(e.func, ast.Attribute)
+            and isinstance(e.func.value, ast.Call)
+            and isinstance(e.func.value.func, ast.Name)
+            and e.func.value.func.id == "super"
+            and not e.func.value.args
+            and not e.func.value.keywords
+        ):
+            args, kwargs = self.eval_args(e, frame)
+            return self.super_call(e.func.attr, args, kwargs, frame)
         if isinstance(e.func, ast.Name) and e.func.id == "super":
             raise Unsupported("super()")
         f = self.eval(e.func, frame)
@@ -1094,12 +1113,62 @@ class Interp:
         finally:
             self.S.cur_site = prev
 
+    _SPECIAL_EXC_INIT = (SyntaxError, UnicodeError, StopIteration, StopAsyncIteration, SystemExit, ImportError, AttributeError, NameError, BaseExceptionGroup)
+
+    def super_call(self, attr: str, args: list[Any], kwargs: dict[str, Any], frame: Frame) -> Any:
+        """Zero-argument ``super().attr(...)`` inside an interpreted method: the next definition of
+        ``attr`` after the defining class in the MRO of the receiver's run-time class.  A parent
+        defined in Python is interpreted; ``BaseException.__init__`` (and the builtin exception
+        classes that share it) sets ``self.args``; ``object.__init__()`` is a no-op."""
+        f = frame
+        while f.parent is not None:
+            f = f.parent
+        node, qn = f.node, f.qualname
+        if node is None or "<locals>" in qn or "." not in qn or not (node.args.posonlyargs + node.args.args):
+            raise Unsupported(f"super() outside a plain method ({qn})")
+        owner: Any = f.globals.get(qn.split(".")[0])
+        for part in qn.split(".")[1:-1]:
+            owner = getattr(owner, part, None)
+        if not isinstance(owner, type):
+            raise Unsupported(f"super(): cannot resolve the defining class of {qn}")
+        obj = f.locals.get((node.args.posonlyargs + node.args.args)[0].arg)
+        if isinstance(obj, type):
+            raise Unsupported("super() in a classmethod")
+        rt = self.models.py_type(self, obj)
+        mro = list(getattr(rt, "__mro__", ()))
+        if owner not in mro:
+            raise self.mkraise(SExc(TypeError, ("super(type, obj): obj must be an instance or subtype of type",)))
+        for k in mro[mro.index(owner) + 1 :]:
+            if attr in k.__dict__:
+                break
+        else:
+            raise self.mkraise(SExc(AttributeError, (f"'super' object has no attribute {attr!r}",)))
+        target = k.__dict__[attr]
+        if isinstance(target, types.FunctionType):
+            h = self.find_handler(target)
+            if h is not None:
+                return h(self.S, obj, *args, **kwargs)
+            return self.call_function(target, [obj] + args, kwargs)
+        if attr == "__init__" and isinstance(obj, SExc) and issubclass(k, BaseException) and not issubclass(k, self._SPECIAL_EXC_INIT):
+            if kwargs:
+                raise self.mkraise(SExc(TypeError, (f"{k.__name__}() takes no keyword arguments",)))
+            if issubclass(k, OSError) and len(args) >= 2:
+                raise Unsupported("OSError.__init__(errno, strerror, ...) argument parsing")
+            obj.args = tuple(args)
+            return None
+        if attr == "__init__" and k is object and not args and not kwargs:
+            return None
+        raise Unsupported(f"super().{attr} resolves to builtin {k.__name__}.{attr}")
+
     # ---- attributes ------------------------------------------------------------------------------
     def getattr_value(self, obj: Any, name: str) -> Any:
         S = self.S
         if isinstance(obj, SObj):
             if name in obj.fields:
                 return obj.fields[name]
+            g = S.handlers.get(f"{obj.kind}.{name}@get")  # computed attribute of an abstract object (e.g. read from ghost state)
+            if g is not None:
+                return g(S, obj)
             h = S.handlers.get(f"{obj.kind}.{name}")
             if obj.cls is not None:
                 try:
